@@ -18,6 +18,7 @@ C14-1:C14:caught C14-2:C14:caught C14-3:C14:caught C14-4:C14:caught
 C15-1:C15:caught C15-2:C15:missed
 C17-1:C17:missed C17-2:C17:missed
 C19-1:C19:missed C19-2:C19:missed
+C20-1:C20:missed C20-2:C20:caught
 C22-1:C22:caught C22-2:C22:caught C22-3:C22:caught C22-4:C22:caught
 C26-1:C26:caught C26-2:C26:missed C26-3:C26:missed C26-4:C26:missed
 C27-1:C27:caught C27-2:C27:missed
